@@ -401,7 +401,8 @@ pub fn impl_(ctx: &Context, input: &DeriveInput) -> TokenStream {
             ) -> Result<&'__flatty_a mut #self_ident<#self_args>, ::flatty::Error> {
                 use ::flatty::{traits::*, utils::iter::{prelude::*, self}};
                 #body
-                Ok(unsafe { #self_ident::<#self_args>::from_mut_bytes_unchecked(__flatty_bytes) } )
+                // Not `#self_ident::from_mut_bytes_unchecked(..)`: an inherent function of the type with that name would win.
+                Ok(unsafe { <#self_ident<#self_args> as ::flatty::traits::FlatUnsized>::from_mut_bytes_unchecked(__flatty_bytes) } )
             }
         }
     }
